@@ -25,8 +25,8 @@ THEOREMS = {
 }
 REQUIRED_THEOREMS = ['C01_hidden_marginal', 'C01_normSq_psi_positive', 'C01_normSq_psi_complex', 'C01_normalization', 'C01_unit_norm', 'C01_modulus_indep_phase_net', 'C01_phase', 'C01_psi_polar', 'C01_positive_real_pos']
 RULE = ("case = (state kind, n, h, parameter scale, parameters); generated with every weight/bias = scale*N(0,1) "
-        "(scale in {0,0.1,1,3,10,30}, plus overflow probes at scale 100 / 300 that are compared in the LOG domain); all 2^n basis states evaluated in the "
-        "batched form, in the vector form (every row) and in a rank-3 batch-of-batches form; "
+        "(scale in {0,0.1,1,3,10,30}, plus a tiny-rows regime - visible biases in -25..-110 at unit couplings, so that the rows of one state span 50..300 orders of magnitude inside the exp domain -, plus overflow probes at scale 100 / 300 that are compared in the LOG domain); all 2^n basis states evaluated in the "
+        "batched form (every exp-domain value compared ROW-WISE RELATIVELY / in the log domain in every regime), in the vector form (every row) and in a rank-3 batch-of-batches form; "
         "argument forms (round 5): the constructor sizes num_visible / num_hidden (state and BinaryRBM constructors), `gpu`, the `size` of "
         "generate_hilbert_space and the normalisation `Z` handed to probability are drawn per case from a seeded stream (`aseed`: Python int, "
         "numpy integer scalars, 0-d numpy / torch integers; bool singleton, 0/1, numpy bools, 0-d bool arrays / tensors; keyword and positional); "
@@ -86,7 +86,12 @@ def _one_case(ctx, kind, n, h, scale, am, ph, tag=None, am2=None, ph2=None, asee
         (mo, md) = A.i_desc(m)
         sp_m = st.generate_hilbert_space(mo) if A.coin(0.5) else st.generate_hilbert_space(size=mo)
         want = qc.all_states(m if m else n)
-        ctx.oracle("generate_hilbert_space(size) == all 2^size basis states in counting order", bool(sp_m.dtype == torch.double and sp_m.tolist() == [[float(x) for x in r] for r in want]),
+        # C01 needs "all 2^size basis states, each exactly once" (the normalisation sums over them); their ORDER and element type are
+        # C19's business: compared as a multiset of rows here, order / dtype counted
+        got_rows = [[float(x) for x in r] for r in sp_m.tolist()] if sp_m.dim() == 2 else None
+        want_rows = [[float(x) for x in r] for r in want]
+        ctx.count("hilbert space: " + ("counting order" if got_rows == want_rows else "other order") + f", dtype {sp_m.dtype}")
+        ctx.oracle("generate_hilbert_space(size) == all 2^size basis states, each exactly once", bool(got_rows is not None and sorted(got_rows) == sorted(want_rows)),
                    base, detail={"size": md, "shape": list(sp_m.shape)}, sig=f"{kind}/hilbert-space-size",
                    theorem="C01_normalization (the sum is over the whole basis: QV.Model.Hilbert.allStates)")
     A.count_into(ctx)
@@ -97,6 +102,65 @@ def _one_case(ctx, kind, n, h, scale, am, ph, tag=None, am2=None, ph2=None, asee
             qc.set_rbm(st.rbm_ph, ph2)
         ctx.count("history:reparametrised-same-objects")
         _eval(ctx, st, rows, space_t, gen_space, kind, n, h, scale, am2, ph2, {"am": am, "ph": ph}, aseed, A)
+
+
+def _log_domain(ctx, case, kind, h, am, rows, E, amp, psi, p1, Z, model, big):
+    """ROW-WISE RELATIVE comparisons (log domain), in every regime (second audit C01-1: comparisons that are absolute w.r.t. max p leave
+    every row many orders of magnitude below the maximum unchecked - at scale 3 / 10 / 30 that is most of them).
+    `big` (some |E| > 600): rows whose float value over-/underflowed are left out; otherwise EVERY row must be a normal positive double."""
+    mget = (lambda k: unbits([r[k] for r in model["rows"]])) if model is not None else None  # noqa: E731
+    with np.errstate(all="ignore"):
+        # TINY: results in the subnormal range (below ~2.2e-308) carry fewer than 53 significant bits (4.9e-324 has ONE), so their
+        # logarithm is not -E to 1e-9; the log-domain comparisons are made on the rows whose value is a NORMAL double
+        TINY = 1e-290
+        fin = np.isfinite(p1) & (p1 > TINY) & np.isfinite(amp) & (amp > 0)
+        modsq = psi[0] ** 2 + psi[1] ** 2
+        fin2 = fin & np.isfinite(modsq) & (modsq > TINY)
+        if big:
+            ctx.count("overflow_regime:" + ("all_rows_finite" if fin.all() else "some_rows_inf_or_0"))
+        else:
+            # |E| <= 600 on every row: exp(-E) is a normal double (>= 1e-261), so is its square root and |psi|^2
+            ctx.oracle("every probability / amplitude / |psi|^2 is a positive normal double where |E| <= 600 (no flush to 0, no overflow)",
+                       bool(fin.all() and fin2.all()), case, detail={"probability": p1.tolist(), "amplitude": amp.tolist(), "modsq": modsq.tolist(), "E": E.tolist()},
+                       sig=f"{kind}/log/positive", theorem="C01_hidden_marginal (the marginal is a sum of exponentials: > 0)")
+        ltol = lambda x: 1e-9 * (1.0 + abs(x))  # noqa: E731
+        ctx.oracle("no NaN" + (" beyond the exp domain" if big else ""), not (np.isnan(amp).any() or np.isnan(p1).any() or np.isnan(psi).any() or np.isnan(Z)), case,
+                   sig=f"{kind}/log/nan", theorem="C01_positive_real_pos / C01_amplitude_eq (values are exp of a finite number: +inf or 0 at worst)")
+        ctx.oracle("log probability == -E", bool(np.all(np.abs(np.log(p1[fin]) + E[fin]) <= [ltol(x) for x in E[fin]])), case,
+                   sig=f"{kind}/log/probability", theorem="C01_hidden_marginal")
+        ctx.oracle("2 log amplitude == log probability", bool(np.all(np.abs(2 * np.log(amp[fin]) - np.log(p1[fin])) <= [ltol(x) for x in E[fin]])), case,
+                   sig=f"{kind}/log/amplitude", theorem="C01_amplitude_eq")
+        ctx.oracle("log |psi|^2 == log probability", bool(np.all(np.abs(np.log(modsq[fin2]) - np.log(p1[fin2])) <= [ltol(x) for x in E[fin2]])), case,
+                   sig=f"{kind}/log/born", theorem="C01_normSq_psi_positive" if kind == "pos" else "C01_normSq_psi_complex")
+        if h <= 6:
+            lm = np.array([log_marginal(am, v) for v in rows])
+            ctx.oracle("-E == log of the hidden marginal (all rows, log domain)", bool(np.all(np.abs(-E - lm) <= [ltol(x) for x in lm])), case,
+                       detail={"minusE": (-E).tolist(), "log_marginal": lm.tolist()}, sig=f"{kind}/log/marginal", theorem="C01_hidden_marginal")
+            if not big:
+                ctx.oracle("log probability == log of the hidden marginal (every row, relative)", bool(fin.all() and np.all(np.abs(np.log(p1) - lm) <= [ltol(x) for x in lm])), case,
+                           detail={"log_p": np.log(p1).tolist(), "log_marginal": lm.tolist()}, sig=f"{kind}/log/marginal-p", theorem="C01_hidden_marginal")
+        if np.isfinite(Z) and Z > 0:
+            m_ = float(np.max(-E))
+            ctx.oracle("log Z == logsumexp(-E)", abs(np.log(Z) - (m_ + np.log(np.exp(-E - m_).sum()))) <= ltol(m_), case,
+                       sig=f"{kind}/log/normalization", theorem="C01_normalization")
+        if kind == "pos" and big:
+            ctx.oracle("positive real nonneg (overflow regime)", bool(np.all(psi[1] == 0) and np.all(psi[0] >= 0)), case, sig="pos/real-nonneg", theorem="C01_positive_real_pos")
+        if model is not None:
+            mamp, mp1 = mget("amplitude"), mget("prob1")
+            mfin = fin & np.isfinite(mp1) & (mp1 > TINY) & np.isfinite(mamp) & (mamp > 0)
+            sc = float(np.max(np.abs(E))) + 1
+            kw = {"scale": sc, "rtol": 1e-9, "atol": 1e-9}
+            ctx.point("log amplitude", "property", np.log(amp[mfin]), np.log(mamp[mfin]), case, theorem=THEOREMS["amplitude"], sig=f"{kind}/log/amplitude-model", **kw)
+            ctx.point("log probability", "property", np.log(p1[mfin]), np.log(mp1[mfin]), case, theorem=THEOREMS["probability"], sig=f"{kind}/log/probability-model", **kw)
+            mm = mget("psi_re") ** 2 + mget("psi_im") ** 2
+            mfin2 = fin2 & np.isfinite(mm) & (mm > TINY)
+            ctx.point("log |psi|^2", "property", np.log(modsq[mfin2]), np.log(mm[mfin2]), case, theorem=THEOREMS["psi"], sig=f"{kind}/log/psi-model", **kw)
+            ctx.point("psi direction", "property", np.r_[psi[0][mfin2], psi[1][mfin2]] / np.sqrt(np.r_[modsq[mfin2], modsq[mfin2]]),
+                      np.r_[mget("psi_re")[mfin2], mget("psi_im")[mfin2]] / np.sqrt(np.r_[mm[mfin2], mm[mfin2]]), case, scale=1.0,
+                      theorem="C01_psi_polar", sig=f"{kind}/log/psi-direction")
+            mZ = float(unbits([model["Z"]])[0])
+            if np.isfinite(Z) and Z > 0 and np.isfinite(mZ) and mZ > 0:
+                ctx.point("log normalization", "property", [np.log(Z)], [np.log(mZ)], case, theorem=THEOREMS["normalization"], sig=f"{kind}/log/normalization-model", **kw)
 
 
 def _eval(ctx, st, rows, space_t, gen_space, kind, n, h, scale, am, ph, before, aseed=None, A=None):
@@ -141,47 +205,7 @@ def _eval(ctx, st, rows, space_t, gen_space, kind, n, h, scale, am, ph, before, 
             psi = st.psi(space_t).numpy().copy()
             p1 = st.probability(space_t, 1.0).numpy().copy()
             Z = float(st.normalization(gen_space))
-            # TINY: results in the subnormal range (below ~2.2e-308) carry fewer than 53 significant bits (4.9e-324 has ONE), so their
-            # logarithm is not -E to 1e-9; the log-domain comparisons are made on the rows whose value is a NORMAL double
-            TINY = 1e-290
-            fin = np.isfinite(p1) & (p1 > TINY) & np.isfinite(amp) & (amp > 0)
-            modsq = psi[0] ** 2 + psi[1] ** 2
-            fin2 = fin & np.isfinite(modsq) & (modsq > TINY)
-            ctx.count("overflow_regime:" + ("all_rows_finite" if fin.all() else "some_rows_inf_or_0"))
-            ltol = lambda x: 1e-9 * (1.0 + abs(x))  # noqa: E731
-            ctx.oracle("no NaN beyond the exp domain", not (np.isnan(amp).any() or np.isnan(p1).any() or np.isnan(psi).any() or np.isnan(Z)), case,
-                       sig=f"{kind}/log/nan", theorem="C01_positive_real_pos / C01_amplitude_eq (values are exp of a finite number: +inf or 0 at worst)")
-            ctx.oracle("log probability == -E", bool(np.all(np.abs(np.log(p1[fin]) + E[fin]) <= [ltol(x) for x in E[fin]])), case,
-                       sig=f"{kind}/log/probability", theorem="C01_hidden_marginal")
-            ctx.oracle("2 log amplitude == log probability", bool(np.all(np.abs(2 * np.log(amp[fin]) - np.log(p1[fin])) <= [ltol(x) for x in E[fin]])), case,
-                       sig=f"{kind}/log/amplitude", theorem="C01_amplitude_eq")
-            ctx.oracle("log |psi|^2 == log probability", bool(np.all(np.abs(np.log(modsq[fin2]) - np.log(p1[fin2])) <= [ltol(x) for x in E[fin2]])), case,
-                       sig=f"{kind}/log/born", theorem="C01_normSq_psi_positive" if kind == "pos" else "C01_normSq_psi_complex")
-            if h <= 6:
-                lm = np.array([log_marginal(am, v) for v in rows])
-                ctx.oracle("-E == log of the hidden marginal (all rows, log domain)", bool(np.all(np.abs(-E - lm) <= [ltol(x) for x in lm])), case,
-                           detail={"minusE": (-E).tolist(), "log_marginal": lm.tolist()}, sig=f"{kind}/log/marginal", theorem="C01_hidden_marginal")
-            if np.isfinite(Z) and Z > 0:
-                m_ = float(np.max(-E))
-                ctx.oracle("log Z == logsumexp(-E)", abs(np.log(Z) - (m_ + np.log(np.exp(-E - m_).sum()))) <= ltol(m_), case,
-                           sig=f"{kind}/log/normalization", theorem="C01_normalization")
-            if kind == "pos":
-                ctx.oracle("positive real nonneg (overflow regime)", bool(np.all(psi[1] == 0) and np.all(psi[0] >= 0)), case, sig="pos/real-nonneg", theorem="C01_positive_real_pos")
-            if model is not None:
-                mamp, mp1 = mget("amplitude"), mget("prob1")
-                mfin = fin & np.isfinite(mp1) & (mp1 > TINY) & np.isfinite(mamp) & (mamp > 0)
-                sc = float(np.max(np.abs(E))) + 1
-                ctx.point("log amplitude", "property", np.log(amp[mfin]), np.log(mamp[mfin]), case, scale=sc, theorem=THEOREMS["amplitude"], sig=f"{kind}/log/amplitude-model")
-                ctx.point("log probability", "property", np.log(p1[mfin]), np.log(mp1[mfin]), case, scale=sc, theorem=THEOREMS["probability"], sig=f"{kind}/log/probability-model")
-                mm = mget("psi_re") ** 2 + mget("psi_im") ** 2
-                mfin2 = fin2 & np.isfinite(mm) & (mm > TINY)
-                ctx.point("log |psi|^2", "property", np.log(modsq[mfin2]), np.log(mm[mfin2]), case, scale=sc, theorem=THEOREMS["psi"], sig=f"{kind}/log/psi-model")
-                ctx.point("psi direction", "property", np.r_[psi[0][mfin2], psi[1][mfin2]] / np.sqrt(np.r_[modsq[mfin2], modsq[mfin2]]),
-                          np.r_[mget("psi_re")[mfin2], mget("psi_im")[mfin2]] / np.sqrt(np.r_[mm[mfin2], mm[mfin2]]), case, scale=1.0,
-                          theorem="C01_psi_polar", sig=f"{kind}/log/psi-direction")
-                mZ = float(unbits([model["Z"]])[0])
-                if np.isfinite(Z) and Z > 0 and np.isfinite(mZ) and mZ > 0:
-                    ctx.point("log normalization", "property", [np.log(Z)], [np.log(mZ)], case, scale=sc, theorem=THEOREMS["normalization"], sig=f"{kind}/log/normalization-model")
+            _log_domain(ctx, case, kind, h, am, rows, E, amp, psi, p1, Z, model, True)
         return
     amp = st.amplitude(space_t).numpy().copy()
     psi = st.psi(space_t).numpy().copy()
@@ -207,13 +231,17 @@ def _eval(ctx, st, rows, space_t, gen_space, kind, n, h, scale, am, ph, before, 
         ctx.point("probability", "property", p1, mget("prob1"), case, scale=sc, theorem=THEOREMS["probability"], sig=f"{kind}/probability")
         ctx.point("normalization", "property", [Z], unbits([model["Z"]]), case, scale=sc, theorem=THEOREMS["normalization"], sig=f"{kind}/normalization")
         ctx.point("probabilityZ", "property", pZ, mget("probZ"), case, scale=1.0, theorem=THEOREMS["probability"], sig=f"{kind}/probabilityZ")
-    # ---------------- property oracles on the implementation
+        # p / Z row-wise relative (the point above is absolute on the scale 1)
+    ctx.oracle("probability(v, Z) == probability(v, 1) / Z (every row, relative)", bool(np.all(np.abs(pZ * Z - p1)[p1 / Z > 1e-290] <= 1e-9 * np.abs(p1)[p1 / Z > 1e-290])), case,   # (rows whose quotient is a normal double)
+               detail={"pZ": pZ.tolist(), "p1": p1.tolist(), "Z": Z}, sig=f"{kind}/probabilityZ-rel", theorem="C01_unit_norm")
+    _log_domain(ctx, case, kind, h, am, rows, E, amp, psi, p1, Z, model, False)
+    # ---------------- property oracles on the implementation (exp domain; every row compared RELATIVELY to its own magnitude)
     sc = float(np.max(p1))
-    tol = lambda x: 1e-9 * max(sc, 1e-300) + 1e-7 * abs(x)  # noqa: E731
+    tol = lambda x: 1e-7 * abs(x) + 1e-300  # noqa: E731
     modsq = psi[0] ** 2 + psi[1] ** 2
     ctx.oracle("|psi|^2==probability", bool(np.all(np.abs(modsq - p1) <= [tol(x) for x in p1])), case,
                detail={"modsq": modsq.tolist(), "p": p1.tolist()}, sig=f"{kind}/born", theorem="C01_normSq_psi_positive" if kind == "pos" else "C01_normSq_psi_complex")
-    ctx.oracle("Z==sum p", abs(Z - p1.sum()) <= tol(Z) * len(rows), case, detail={"Z": Z, "sum": float(p1.sum())},
+    ctx.oracle("Z==sum p", abs(Z - p1.sum()) <= 1e-9 * sc * len(rows) + tol(Z) * len(rows), case, detail={"Z": Z, "sum": float(p1.sum())},
                sig=f"{kind}/norm-sum", theorem="C01_normalization")
     ctx.oracle("sum p/Z==1", abs(pZ.sum() - 1) <= 1e-7, case, detail={"sum": float(pZ.sum())}, sig=f"{kind}/unit", theorem="C01_unit_norm")
     if h <= 6:
@@ -273,8 +301,21 @@ def gen_cases(ctx, thorough):
         for scale in scales:
             for kind in ("pos", "cplx"):
                 am = qc.rand_rbm_params(ctx.rng, n, h, scale)
-                ph = qc.rand_rbm_params(ctx.rng, n, h, min(scale, 3.0) if scale else 0.0) if kind == "cplx" else None
+                # phase network: capped at scale 3 or (second audit C01-2) at the case's own scale (|E_mu| up to several hundred)
+                ph = qc.rand_rbm_params(ctx.rng, n, h, (ctx.rng.choice([min(scale, 3.0), scale]) if scale else 0.0)) if kind == "cplx" else None
                 yield kind, n, h, scale, am, ph
+
+
+def tiny_row_cases(ctx, thorough):
+    """strongly negative visible biases with O(1) couplings: the probabilities of one state span 50 .. 300 orders of magnitude inside the
+    exp domain (|E| <= 600), so that most rows are far below max p (second audit C01-1: those rows are compared relatively / in the log domain)"""
+    for _ in range(6 if thorough else 2):
+        for kind in ("pos", "cplx"):
+            n, h = ctx.rng.choice([2, 3, 4, 5]), ctx.rng.choice([1, 2, 3, 4])
+            am = qc.rand_rbm_params(ctx.rng, n, h, 1.0)
+            am["b"] = [-ctx.rng.uniform(25.0, 110.0) for _ in range(n)]
+            ph = qc.rand_rbm_params(ctx.rng, n, h, 3.0) if kind == "cplx" else None
+            yield kind, n, h, 1.0, am, ph
 
 
 def overflow_probes(ctx, thorough):
@@ -293,6 +334,12 @@ def run(ctx):
     for (kind, n, h, scale, am, ph) in gen_cases(ctx, ctx.tier == "thorough"):
         am2 = qc.rand_rbm_params(ctx.rng, n, h, min(scale, 3.0) if scale else 0.5)
         ph2 = qc.rand_rbm_params(ctx.rng, n, h, 1.0) if kind == "cplx" else None
+        one_case(ctx, kind, n, h, scale, am, ph, am2=am2, ph2=ph2, aseed=af.draw_aseed(ctx.rng))
+    for (kind, n, h, scale, am, ph) in tiny_row_cases(ctx, ctx.tier == "thorough"):
+        am2 = qc.rand_rbm_params(ctx.rng, n, h, 1.0)
+        am2["b"] = [-x for x in am["b"]]
+        ph2 = qc.rand_rbm_params(ctx.rng, n, h, 1.0) if kind == "cplx" else None
+        ctx.count("regime=tiny-rows")
         one_case(ctx, kind, n, h, scale, am, ph, am2=am2, ph2=ph2, aseed=af.draw_aseed(ctx.rng))
     for (kind, n, h, scale, am, ph) in overflow_probes(ctx, ctx.tier == "thorough"):
         am2 = qc.rand_rbm_params(ctx.rng, n, h, scale)
